@@ -52,6 +52,21 @@ CLAIMED = {
         "consumes at once (not bytes parked behind a reassembly gap, which a genuine retransmission may overwrite).",
         "DESIGN.md 7 C03",
     ),
+    "C04": (
+        "exploration",
+        "deterministic simulation with fault injection against a sanitizer build: hostile/truncated/extended datagrams "
+        "and a max_datagram_size / CID-length configuration sweep drive the real stack while ASan+UBSan, a preloaded "
+        "libcrypto boundary shim and Python/C argument contracts observe the C helpers; seeded Buffer API walks",
+        "The current _crypto.c/_buffer.c are compiled with clang -fsanitize=address,undefined (recover mode) and "
+        "loaded into an interpreter started with the ASan runtime and an ASan-built EVP shim preloaded "
+        "(PYTHONMALLOC=malloc). Which C paths run depends on connection state and configuration, so they are driven by "
+        "simulated lossy/hostile runs and a configuration sweep; every run ends with an inspection of the sanitizer log "
+        "and of contract breaches at the Python/C seam (scratch-buffer sizes parsed from _crypto.c), and every rejection "
+        "must leave the helper usable.",
+        "Trusted: clang sanitizers, the shim. OpenSSL is uninstrumented (checked at the EVP boundary only). The Buffer "
+        "clause is a seeded stateful-API walk against a bytearray model, not a simulation.",
+        "DESIGN.md 7 C04",
+    ),
     "C05": (
         "exploration",
         "deterministic simulation with fault injection: hostile datagrams (random, mutated, coalesced, forged frames "
